@@ -161,11 +161,15 @@ func (e *Environment) SaveGlobals(to io.Writer, maxValueLen int) (int, error) {
 			f := v.(Function)
 			if f.Name != nil {
 				// Named function inspect is ready for definition, eg func y(a,b){a+b}.
+				if ferr := VerifFault("save:write"); ferr != nil {
+					return n, ferr
+				}
 				_, err := fmt.Fprintf(to, "%s\n", f.Inspect())
 				if err != nil {
 					return n, err
 				}
 				n++
+				VerifPoint("save:binding")
 				continue
 			}
 			// Anonymous function are like other variables.
@@ -177,11 +181,15 @@ func (e *Environment) SaveGlobals(to io.Writer, maxValueLen int) (int, error) {
 			log.Warnf("Skipping %q as it's too long (%d > %d)", k, len(val), maxValueLen)
 			continue
 		}
+		if ferr := VerifFault("save:write"); ferr != nil {
+			return n, ferr
+		}
 		_, err := fmt.Fprintf(to, "%s=%s\n", k, val)
 		if err != nil {
 			return n, err
 		}
 		n++
+		VerifPoint("save:binding")
 	}
 	return n, nil
 }
@@ -195,6 +203,7 @@ func (e *Environment) MakeRegister(originalName string, v int64) Register {
 		panic(fmt.Sprintf("No more registers available for %s (%d) have %v", originalName, v, e.registers))
 	}
 	e.registers[e.numReg] = v
+	verifRegMade()
 	tok := token.Intern(token.REGISTER, originalName)
 	r := Register{RefEnv: e, Idx: e.numReg, Base: ast.Base{Token: tok}}
 	e.numReg++
@@ -206,6 +215,7 @@ func (e *Environment) ReleaseRegister(register Register) {
 		panic(fmt.Sprintf("Releasing non last register %s %d != %d", register.Literal(), register.Idx, e.numReg-1))
 	}
 	e.numReg--
+	verifRegReleased()
 }
 
 func (e *Environment) makeRef(name string) (*Reference, bool) {
